@@ -153,12 +153,11 @@ pub fn prefixed_count() -> u64 {
 pub fn run_check(ctx: &Ctx) {
     ctx.set_rule("families (x, k, U1, U2, U3) of commensurable spellings: direct cast, there-and-back, via an intermediate unit, scaled input k*(x U1) to U2 and scaled output k*(x U1 to U2), each compared with x*s(U1)/s(U2) where s is the product of the observed single-unit factors and 10^(prefix*power); plus the exhaustive grid `1 <prefix><name>^n to <name>^n` = 10^(e*n) over every prefixed word the tool reads as declared and n in -3..3; non-trivial = source != target and (prefix on a powered unit, or >=2 units, or a derived unit in a denominator); distinct by the direct-cast query text");
     ctx.assume("single-unit factors are the tool's own (observed once with 86 casts); their correctness against the standards is C05's job");
-    let db = shared_db();
     let corpus: Vec<(String, QCase)> = load_corpus("C03");
     let cases: Vec<QCase> = corpus.into_iter().map(|c| c.1).collect();
-    ctx.run_list("corpus", &cases, |c| judge(db, c), |c| to_json(c));
+    ctx.run_list("corpus", &cases, |c| judge(shared_db(), c), |c| to_json(c));
     let total = prefixed_count() * 6;
-    ctx.run_enum("prefix-grid", total, prefix_case, |c| judge(db, c), |c| to_json(c));
+    ctx.run_enum("prefix-grid", total, prefix_case, |c| judge(shared_db(), c), |c| to_json(c));
     ctx.put("prefix_grid_exhaustive", json!(true));
     let n = ctx.tier.pick(40_000u64, 1_000_000);
     ctx.run_gen("families", family, n, check, family_json);
